@@ -467,7 +467,7 @@ def run_unit(mod, scratch, tier, seed, jobs):
         if not r.undecided and not r.canary_ok:
             r.undecided = "vacuity guard: the simulator accepted a deliberately wrong expectation"
         return [r]
-    for cfg in u.cfgs:
+    def one_cfg(cfg):
         text = u.text[cfg]
         if u.tool == "verus":
             r = run_verus(u, cfg, text, scratch, rlimit=getattr(mod, "RLIMIT", None))
@@ -492,5 +492,10 @@ def run_unit(mod, scratch, tier, seed, jobs):
                 missing = [t for t in led["obligations"] if t not in ids and t not in getattr(u, "optional", ())]
                 if missing:
                     r.undecided = "vacuity guard: obligations in the ledger are missing from the generated unit: %s" % missing[:5]
-        results.append(r)
+        return r
+    if len(u.cfgs) > 1:
+        with cf.ThreadPoolExecutor(max_workers=len(u.cfgs)) as ex:      # feature sets of one unit are independent crates / files
+            results.extend(ex.map(one_cfg, u.cfgs))
+    else:
+        results.append(one_cfg(u.cfgs[0]))
     return results
